@@ -1142,6 +1142,10 @@ type MeterEvent struct {
 	Metered Z      `json:"metered"`
 	Words   int    `json:"words"`
 	Cmp     int    `json:"cmp"` // sign of a - b (signed comparison of the operands)
+	AZ      Z      `json:"az"`  // operands and result as integers (arithmetic / bitwise operations)
+	BZ      Z      `json:"bz"`
+	RZ      Z      `json:"rz"`
+	Abits   int    `json:"abits"` // bit length of the left operand (shifts)
 }
 
 // materialise: the value described by (w words, kind, sign)
@@ -1208,7 +1212,12 @@ func cmdMeter(rowsPath, outPath string) {
 			if !t.inRange(b) {
 				util.Die("descriptor %+v / amount %d is outside %s", bd, n, row.T)
 			}
-			ev := MeterEvent{T: row.T, Op: row.Op, A: row.A, B: bd, N: n, WA: len(a.Bits()), WB: len(b.Bits()), Cmp: a.Cmp(b)}
+			ev := MeterEvent{T: row.T, Op: row.Op, A: row.A, B: bd, N: n, WA: len(a.Bits()), WB: len(b.Bits()), Cmp: a.Cmp(b),
+				AZ: toZ(zero), BZ: toZ(zero), RZ: toZ(zero), Abits: a.BitLen()}
+			isShift := row.Op == "shl" || row.Op == "shr"
+			if !isShift {
+				ev.AZ, ev.BZ = toZ(a), toZ(b)
+			}
 			func() {
 				defer func() {
 					if r := recover(); r != nil {
@@ -1249,6 +1258,9 @@ func cmdMeter(rowsPath, outPath string) {
 				ev.Out = "ok"
 				ev.Metered = toZ(new(big.Int).SetUint64(m))
 				ev.Words = len(toBigRaw(res).Bits())
+				if !isShift {
+					ev.RZ = toZ(toBigRaw(res))
+				}
 			}()
 			evs = append(evs, ev)
 		}
